@@ -995,6 +995,21 @@ pub fn c17(c: &Collector, g: &mut Guard) {
     g.need(c, "bfs_judged");
 }
 
+/// A width change (resize, DECCOLM) must not LOSE a tab stop (a stop that HTS set or the
+/// defaults provided, visible or beyond the current width) and must not add one inside the
+/// columns that already existed; what the newly added columns get is not specified.
+fn stops_frame_violation(pre: &crate::snapshot::Snap, post: &crate::snapshot::Snap) -> Option<String> {
+    let lost: Vec<u32> = pre.tabstops.iter().cloned().filter(|s| !post.tabstops.contains(s)).collect();
+    let added_inside: Vec<u32> = post.tabstops.iter().cloned().filter(|s| !pre.tabstops.contains(s) && *s < pre.columns).collect();
+    if !lost.is_empty() {
+        return Some(format!("a width change lost the tab stops {:?} ({:?} -> {:?}); only TBC and reset remove stops", lost, pre.tabstops, post.tabstops));
+    }
+    if !added_inside.is_empty() {
+        return Some(format!("a width change added the tab stops {:?} inside the existing columns ({:?} -> {:?})", added_inside, pre.tabstops, post.tabstops));
+    }
+    None
+}
+
 // =====================================================================  C18
 fn tab_ops() -> Vec<Op> {
     let mut v = vec![Op::Tab, Op::SetTabStop, Op::Feed(vec!["\t".into()], true), Op::Feed(vec!["\x1bH".into()], true)];
@@ -1260,15 +1275,8 @@ pub fn c18(c: &Collector, g: &mut Guard) {
         |c, t, local| {
             if let Ok((_, post, _)) = t.outcome {
                 local.count("width_change_stop_frames");
-                if post.tabstops != t.pre.tabstops {
-                    viol(
-                        c,
-                        "C18",
-                        "E4.width-change.frame",
-                        t,
-                        "stops-changed-by-width-change",
-                        format!("a width change altered the tab stops: {:?} -> {:?} (only HTS, TBC and reset edit them)", t.pre.tabstops, post.tabstops),
-                    );
+                if let Some(m) = stops_frame_violation(t.pre, post) {
+                    viol(c, "C18", "E4.width-change.frame", t, "stops-changed-by-width-change", m);
                 }
             }
         },
@@ -1313,8 +1321,8 @@ pub fn c18(c: &Collector, g: &mut Guard) {
                 refine(c, "C18", "E4.bfs.reset", t, &[Comp::Tabstops], local) && expand_ok(t)
             } else if matches!(t.op, Op::Resize(..)) {
                 if let Ok((_, post, _)) = t.outcome {
-                    if post.tabstops != t.pre.tabstops {
-                        viol(c, "C18", "E4.bfs.frame", t, "stops-changed-by-width-change", format!("resize altered the tab stops: {:?} -> {:?}", t.pre.tabstops, post.tabstops));
+                    if let Some(m) = stops_frame_violation(t.pre, post) {
+                        viol(c, "C18", "E4.bfs.frame", t, "stops-changed-by-width-change", m);
                     }
                 }
                 expand_ok(t)
